@@ -91,6 +91,66 @@ def nontrivial(case):
     return False
 
 
+def large_archive_stream(rep, rng, n):
+    """archives with far more than 2^16 cells (implementations that switch algorithm for large index spaces): a cell holds the
+    highest-objective candidate routed to it, the earliest one on ties; judged directly on the implementation (no model: the
+    store would be 90 000 cells long)"""
+    from ribs.archives import GridArchive
+    for _ in range(n):
+        dt = rng.choice([np.float64, np.float32])
+        cma = rng.random() < 0.4
+        kw = {"learning_rate": rng.choice([0.5, 1.0, 0.25]), "threshold_min": -8.0} if cma else {}
+        a = GridArchive(solution_dim=1, dims=[300, 300], ranges=[(0, 1), (0, 1)], dtype=dt, **kw)
+        pts = [[rng.choice([0.999, 0.75, 0.9, 0.3]) + rng.random() * 1e-4, rng.choice([0.999, 0.8, 0.31]) + rng.random() * 1e-4] for _ in range(4)]
+        best = {}
+        nid = 1
+        for call in range(rng.randint(1, 3)):
+            nb = rng.choice([2, 3, 6, 12])
+            meas, objs, ids = [], [], []
+            for _ in range(nb):
+                meas.append(rng.choice(pts))
+                objs.append(rng.choice([3.0, 3.0, 1.5, -2.0, 4.25]))
+                ids.append(nid)
+                nid += 1
+            single = rng.random() < 0.3 and not cma
+            cells = [int(x) for x in a.index_of(np.array(meas, dtype=dt))]
+            pre = {int(i): float(t) for i, t in zip(a.data("index"), a.data("threshold"))}
+            if single:
+                for m, o, i in zip(meas, objs, ids):
+                    a.add_single(np.array([i], dtype=dt), o, np.array(m, dtype=dt))
+            else:
+                a.add(np.array(ids, dtype=dt)[:, None], np.array(objs, dtype=dt), np.array(meas, dtype=dt))
+            if not cma:
+                for c, o, i in zip(cells, objs, ids):
+                    if c not in best or o > best[c][0]:
+                        best[c] = (o, i)
+            else:
+                # CMA-MAE: per call and cell, the winner among the candidates above the cell's pre-call threshold (sequentially for add_single)
+                if single:
+                    continue     # thresholds move between the single calls; only batch calls are judged here
+                per = {}
+                for c, o, i in zip(cells, objs, ids):
+                    if o > pre.get(c, -8.0) and (c not in per or o > per[c][0]):
+                        per[c] = (o, i)
+                best.update(per)
+        rep.count("large_archive_cases")
+        d = a.data()
+        got = {int(c): (float(o), int(round(float(s[0])))) for c, o, s in zip(d["index"], d["objective"], d["solution"])}
+        if any(c >= 65536 for c in best):
+            rep.count("large_archive_cases_beyond_2^16")
+        bad = {c: (got.get(c), best[c]) for c in best if got.get(c) != best[c]} if (not cma or best) else {}
+        if cma:
+            bad = {c: v for c, v in bad.items() if c in best}
+        if bad:
+            c = sorted(bad)[0]
+            rep.violation("GridArchive with 90000 cells: cell %d holds (objective, id) %s but the highest-objective candidate routed to it, earliest on ties, is %s" %
+                          (c, bad[c][0], bad[c][1]),
+                          {"kind": "property", "broken": "C01_contents (a cell holds the highest-objective candidate routed to it, the earliest one on ties)",
+                           "case": {"dims": [300, 300], "dtype": np.dtype(dt).name, "cma": cma, "cells": {str(k): [list(map(str, v[0] or ())), list(v[1])] for k, v in bad.items()}}},
+                          True, {"kind": "large-archive-winner"})
+            return
+
+
 def check(rep, tier, seed, driver):
     rng = random.Random(seed)
     n = 350 if tier == "quick" else 1500
@@ -111,3 +171,4 @@ def check(rep, tier, seed, driver):
                  oracle=oracle, nontrivial=nontrivial,
                  what="elitist archive contents", broken="Model/Archive.v vs ribs/archives/_archive_base.py + _transforms.py + _array_store.py",
                  theorems=["C01_contents", "C01_batching_invariance", "C01_len"])
+    large_archive_stream(rep, rng, 25 if tier == "quick" else 300)
